@@ -213,8 +213,13 @@ pub fn coordinated(fx: &Fixture, parts: &mut Parts, tier: Tier) -> Vec<SiteGroup
                 }
             }
             // ---- floods that multiply two sizes of the input with each other ----
-            let flood = thorough || fx.name.starts_with("any_sheets.") || fx.name.starts_with("issue_391.") || fx.name.starts_with("temperature-table.");
-            if flood {
+            let named = fx.name.starts_with("any_sheets.") || fx.name.starts_with("issue_391.") || fx.name.starts_with("temperature-table.");
+            // the aliasing floods (many names for one part, many dependents of one formula) cost
+            // N x S by the nature of what the API has to return (DESIGN §11, "not pursued"): they
+            // are swept on the three small named fixtures only, at sizes inside the budgets, as a
+            // guard against anything worse than N x S
+            let aliasing = named;
+            if thorough || named {
                 let (n_xf, l_fmt) = if thorough { (40_000u32, 400_000u32) } else { (20_000, 200_000) };
                 // one long custom number format referenced by many cell formats
                 if let Some(d) = parts.part("xl/styles.xml") {
@@ -243,11 +248,11 @@ pub fn coordinated(fx: &Fixture, parts: &mut Parts, tier: Tier) -> Vec<SiteGroup
                     }
                 }
                 // many sheet entries that share one relationship id (one part behind N names)
-                if let Some(d) = parts.part("xl/workbook.xml") {
+                if let Some(d) = parts.part("xl/workbook.xml").filter(|_| aliasing) {
                     if let (Some(s), Some(e)) = (find_from(&d, b"<sheet ", 0), find_from(&d, b"</sheets>", 0)) {
                         if let Some((v, len)) = attr_in_tag(&d, s, b"r:id") {
                             let rid = String::from_utf8_lossy(&d[v..v + len]).to_string();
-                            for n in if thorough { vec![2_000u32, 20_000] } else { vec![2_000] } {
+                            for n in [2_000u32] {
                                 push(
                                     vec![zp("xl/workbook.xml", Edit::Repeat { off: e, pattern: format!("<sheet name=\"alias{{#}}\" sheetId=\"{{#}}\" r:id=\"{}\"/>", rid).into_bytes(), count: n, start: 100, step: 1, le: vec![] }, format!("coord:sheet-alias-flood {} sheet entries sharing relationship {}", n, rid))],
                                     true,
@@ -258,11 +263,11 @@ pub fn coordinated(fx: &Fixture, parts: &mut Parts, tier: Tier) -> Vec<SiteGroup
                     }
                 }
                 // one shared formula with a long text and many dependents
-                for sp in sheet_parts(&names).into_iter().take(1) {
+                for sp in sheet_parts(&names).into_iter().take(if aliasing { 1 } else { 0 }) {
                     if let Some(d) = parts.part(&sp) {
                         if let (Some(a), Some(b)) = (find_from(&d, b"<sheetData>", 0), find_from(&d, b"</sheetData>", 0)) {
                             let a = a + b"<sheetData>".len();
-                            let (terms, deps) = if thorough { (4_000u32, 8_000u32) } else { (2_000, 4_000) };
+                            let (terms, deps) = (2_000u32, 4_000u32);
                             let mut g = vec![zp(&sp, Edit::Delete { off: a, len: b - a }, format!("coord:shared-flood (removal of the original rows of {})", sp))];
                             // rows 2.. are dependents; row 1 holds the master
                             g.push(zp(&sp, Edit::Repeat { off: a, pattern: b"<row r=\"{#}\"><c r=\"A{#}\"><f t=\"shared\" si=\"0\"/><v>1</v></c></row>".to_vec(), count: deps, start: 2, step: 1, le: vec![] }, format!("coord:shared-flood {} dependents of one shared formula", deps)));
